@@ -54,6 +54,7 @@ class TraceRun:
         self.probes = {}
         self.state_sigs = set()
         self.finals = {}
+        self.final_is_bool = set()    # names (finals and region variables) whose object is a LinCombBool
         self.src = None
         self.gen = None
         self.w = None
@@ -366,6 +367,7 @@ class TraceRun:
             "if_then_else": w.branching.if_then_else, "Array": w.array.Array,
             "__zero__": rt.ConstVal(0), "__poseidon__": self.cb_poseidon, "__inputs__": self.inputs,
             "__E__": PlanEnum, "__ret__": self.cb_ret, "__alt__": self.alt_inputs,
+            "__ext__": lambda nm, v: self.tracked.__setitem__("ext." + nm, snapshot_values(v, self.w.lc_of)),
             "__set_res__": self.cb_set_res, "__set_bl__": self.cb_set_bl, "__prove__": self.cb_prove,
             "__step__": self.cb_step, "__enter__": self.cb_enter,
             "__leave__": self.cb_leave, "__caught__": self.cb_caught, "__set_ie__": self.cb_set_ie,
@@ -447,6 +449,8 @@ class TraceRun:
                 self.tracked[nm] = snapshot_values(v, w.lc_of)
                 if lc is not None:
                     self.finals["_." + nm] = (lc.value, W.canon_lc(lc.lc.lc, rec.p))
+                    if isinstance(v, w.boolean.LinCombBool):
+                        self.final_is_bool.add("_." + nm)
             self.open_blocks = len(ctx.stack)
             ctx.stack.clear()      # keep BranchingValues.__del__ quiet
         # collect final top-level variables
@@ -455,6 +459,8 @@ class TraceRun:
                 lc = w.lc_of(v)
                 if lc is not None:
                     self.finals[nm] = (lc.value, W.canon_lc(lc.lc.lc, rec.p))
+                    if isinstance(v, w.boolean.LinCombBool):
+                        self.final_is_bool.add(nm)
 
     # -- summaries
     def digest_material(self):
@@ -618,6 +624,7 @@ def run_native(plan, inputs=None, snapshots=None, alt=None):
     caught = []
     calls = {}
     rets = []
+    ext = {}
 
     def step(k, loc, model):
         if snapshots is not None:
@@ -631,6 +638,7 @@ def run_native(plan, inputs=None, snapshots=None, alt=None):
          "__ret__": lambda vals: rets.append({nm: snapshot_values(v) for nm, v in vals.items()}), "__alt__": alt,
          "__callend__": lambda n, ret: calls.__setitem__(n, _plain(ret)),
          "__enter__": lambda *a: None, "__leave__": lambda *a: None,
+         "__ext__": lambda nm, v: ext.__setitem__("ext." + nm, snapshot_values(v)),
          # regions under a (plain) condition: the body runs iff the condition is 1
          "__cv__": lambda c: int(c), "guarded": lambda c: (lambda f: (lambda: f() if int(c) == 1 else None))}
     try:
@@ -641,4 +649,4 @@ def run_native(plan, inputs=None, snapshots=None, alt=None):
     run_native.last_caught = caught
     run_native.last_calls = calls
     run_native.last_rets = rets
-    return outcome, {k[2:]: v for k, v in g.items() if k.startswith("T_")}, src
+    return outcome, dict({k[2:]: v for k, v in g.items() if k.startswith("T_")}, **ext), src
